@@ -129,6 +129,8 @@ Proof. intros. apply run_RegInv, genesis_RegInv. Qed.
 Print Assumptions registry_invariant_reachable.
 
 (** Sequences mixing conversions in both directions — messages and swap-to-native hook calls —
+    with ERC20 deployments for other tokens (existing or IBC-style new ones) and implementation
+    upgrades ([conversion] = ToErc20 / FromErc20 / HookToNative / Deploy / UpgradeErc20 / EvmMode),
     successful and failed, for any tokens, by any senders to any receivers, with the EVM double
     misbehaving in any way: for every token bound to a contract, native supply + ERC20 supply is
     what it was. *)
